@@ -6,7 +6,7 @@
 (* it has no action that lowers `alive` or raises `panics`.                      *)
 EXTENDS Integers, Sequences, FiniteSets, TLC
 
-EntryPoints == {"tunnel", "legacy-order", "authorization", "ntlm-message", "kdcproxy", "web"}
+EntryPoints == {"tunnel", "legacy-order", "authorization", "header", "ntlm-message", "kdcproxy", "web"}
 \* "stalled": a channel is open, the host keeps sending and this client has stopped reading (the relay is blocked in its write)
 \* "streaming": a channel is open, the host keeps sending and the client reads it all (the relay is writing all the time)
 Phases == {"init", "hs", "created", "authorized", "channel", "stalled", "streaming"}
@@ -16,6 +16,9 @@ Classes(ep) ==
                          "keepalive-flood", "data-flood"}
     [] ep = "legacy-order" -> {"in-before-out", "in-only", "out-only-then-close", "out-only-many", "out-twice", "in-twice", "in-unknown-id", "no-id"}
     [] ep = "authorization" -> {"bare-ntlm", "bare-negotiate", "bare-basic", "embedded-scheme", "one-char", "long-garbage", "ntlm-garbage", "basic-notbase64", "negotiate-garbage", "nul-bytes", "basic-nonutf8", "basic-authservice-away"}
+    \* request headers every endpoint's middleware reads before any authentication: forwarded-for lists that name no address,
+    \* connection identifiers and upgrade requests that are not what a client would send
+    [] ep = "header" -> {"xff-unknown", "xff-commas", "xff-unknown-list", "xff-blank-elements", "xff-huge", "xff-nonaddress", "connid-empty", "connid-huge", "upgrade-other", "cookie-garbage"}
     [] ep = "ntlm-message" -> {"short-negotiate", "trunc-authenticate", "bad-offsets", "challenge-type", "random", "sig-only", "huge"}
     [] ep = "kdcproxy" -> {"random-der", "nested-deep", "empty", "huge-length", "short-message", "trailing"}
     [] ep = "web" -> {"tokeninfo-garbage", "connect-garbage-cookie", "callback-garbage", "long-url", "metrics", "anonymous-after-login", "stale-cookie-after-login"}
